@@ -49,7 +49,17 @@ PINNED = ["PUSH 0 MLOAD PUSH 0 MSTORE MSTORE8 PUSH 0 MLOAD", "PUSH 40 MLOAD PUSH
           "PUSH 20 PUSH 20 KECCAK256 PUSH 20 MSTORE PUSH 20 PUSH 20 KECCAK256 POP", "PUSH 20 PUSH 0 KECCAK256 POP MSTORE PUSH 2 PUSH 1f KECCAK256",
           "MSTORE PUSH 40 MLOAD PUSH 0 MLOAD PUSH 0 MSTORE", "PUSH 1 MLOAD PUSH 1 SSTORE MSTORE8 ADD PUSH 1 SSTORE PUSH 0 MLOAD SWAP1 PUSH 0 MLOAD",
           "PUSH 1f MLOAD PUSH 1f MSTORE DUP2 DUP2 MSTORE PUSH 3f MLOAD", "MSTORE8 PUSH 40 MLOAD PUSH 40 MSTORE MLOAD",
-          "DUP1 SLOAD DUP2 SSTORE SSTORE DUP1 SLOAD"]
+          "DUP1 SLOAD DUP2 SSTORE SSTORE DUP1 SLOAD",
+          # an access, then load / store through another address term / load of the first address again (the window in which a
+          # conflicting store is looked for when two loads are unified starts after the first load, wherever that is)
+          "PUSH 2a PUSH 80 MSTORE DUP1 MLOAD PUSH 7 DUP4 MSTORE DUP2 MLOAD",
+          "PUSH 2a PUSH 80 MSTORE DUP1 MLOAD PUSH 7 DUP4 MSTORE8 DUP2 MLOAD",
+          "PUSH 80 MLOAD POP DUP1 MLOAD PUSH 7 DUP4 MSTORE DUP2 MLOAD",
+          "PUSH 80 MLOAD POP DUP1 MLOAD PUSH 7 DUP4 MSTORE8 DUP2 MLOAD",
+          "DUP3 MLOAD POP DUP1 MLOAD PUSH 7 DUP4 MSTORE DUP2 MLOAD",
+          "DUP3 MLOAD POP DUP1 MLOAD PUSH 7 DUP4 MSTORE8 DUP2 MLOAD",
+          "PUSH 2a PUSH 80 SSTORE DUP1 SLOAD PUSH 7 DUP4 SSTORE DUP2 SLOAD",
+          "PUSH 80 SLOAD POP DUP1 SLOAD PUSH 7 DUP4 SSTORE DUP2 SLOAD"]
 
 
 def build_blocks(tier, seed):
